@@ -247,6 +247,12 @@ pub fn step(ctx: &BuildContext<TestBp>, layers: &Path, scratch: &Path, names: &[
                                     match inv["d"].as_str().unwrap() {
                                         "delete" => Ok((InvalidMetadataAction::DeleteLayer, c_inv)),
                                         "replace" => Ok((InvalidMetadataAction::ReplaceMetadata(V { version: string_of(&inv["version"]) }), c_inv)),
+                                        // a callback that looks at what it is shown: metadata it recognises is migrated, anything else
+                                        // means the layer is thrown away (used by the C12 fault scenarios)
+                                        "migrate" if g.as_ref().is_some_and(|t| !t.is_empty()) => {
+                                            Ok((InvalidMetadataAction::ReplaceMetadata(V { version: string_of(&inv["version"]) }), c_inv))
+                                        }
+                                        "migrate" => Ok((InvalidMetadataAction::DeleteLayer, c_inv)),
                                         _ => Err(BpError),
                                     }
                                 },
